@@ -234,16 +234,37 @@ func (d deferVal) Referrers() *[]ssa.Instruction { return nil }
 // freeVarWrites inspects a goroutine closure: does it assign the captured variable itself
 // (hdr), and may it write through it / pass it on (contents)?
 func freeVarWrites(fv *ssa.FreeVar) (hdr, contents bool) {
-	refs := fv.Referrers()
-	if refs == nil {
+	return addrWrites(fv, 0)
+}
+
+// addrWrites inspects the uses of an address (a captured variable or a field / element address
+// derived from it): is something stored through it (hdr), and may what is loaded from it be used
+// to write elsewhere or be passed on (contents)?
+func addrWrites(addr ssa.Value, depth int) (hdr, contents bool) {
+	refs := addr.Referrers()
+	if refs == nil || depth > 6 {
 		return true, true
 	}
 	for _, r := range *refs {
 		switch x := r.(type) {
 		case *ssa.DebugRef:
 		case *ssa.Store:
-			if x.Addr == fv {
+			if x.Addr == addr {
 				hdr = true
+			} else {
+				hdr, contents = true, true
+			}
+		case *ssa.FieldAddr:
+			if x.X == addr {
+				h, c := addrWrites(x, depth+1)
+				hdr, contents = hdr || h, contents || c
+			} else {
+				hdr, contents = true, true
+			}
+		case *ssa.IndexAddr:
+			if x.X == addr {
+				h, c := addrWrites(x, depth+1)
+				hdr, contents = hdr || h, contents || c
 			} else {
 				hdr, contents = true, true
 			}
